@@ -20,7 +20,7 @@
                                 (index / glyphs_per_row + 1) * ch < 2^31 (mod.rs:109-114 `index as u32`, `row * height`, `as i32`);
                                 holds for every string with every built-in font (C14_builtin_index_ok)  *)
 From EG Require Import Base.Prelude Model.Geometry Proofs.Geometry Model.Fontmodel Proofs.Fontmodel
-  Gen.FontTable Model.Fontbuiltin Proofs.Fontbuiltin Model.Textmodel Proofs.Textmodel Proofs.Textbox Proofs.Textbuiltin.
+  Gen.FontTable Model.Fontbuiltin Proofs.FontGolden Proofs.Fontbuiltin Model.Textmodel Proofs.Textmodel Proofs.Textbox Proofs.Textbuiltin.
 
 (* ------------------------------------------------------------------ glyph mapping *)
 
@@ -248,6 +248,11 @@ Proof. exact builtin_index_injective. Qed.
 Theorem C14_builtin_unmapped_is_question_mark : forall b c,
   In b fonts -> ~ In c (builtin_chars b) -> builtin_index b c = builtin_index b 63 /\ In 63 (builtin_chars b).
 Proof. exact builtin_unmapped_is_question_mark. Qed.
+
+(* the glyph bitmaps (fonts/raw files) of the tree under test are the committed reference of Proofs/FontGolden.v:
+   name and FNV-1a digest of every font; c14_bi ties the same digest to font.image of the running library *)
+Theorem C14_builtin_bitmaps_unchanged : map (fun b => (bf_name b, bf_digest b)) fonts = golden_bitmaps.
+Proof. exact builtin_bitmaps_unchanged. Qed.
 
 (* the translator's own walk over each mapping string agrees with the model of StrGlyphMapping::chars *)
 Theorem C14_builtin_expansion_agrees : forall m, In m mappings -> bm_chars m = expand_chars (bm_raw m).
